@@ -296,6 +296,9 @@ func c03writeRead(x poly.Sequence, want []byte) (fields []string, status string)
 		}
 	}()
 	dir := filepath.Join("/verif", "build", "C03", "tmp")
+	if exe, err := os.Executable(); err == nil {
+		dir = filepath.Join(filepath.Dir(filepath.Dir(exe)), "C03", "tmp") // next to the binary's build directory
+	}
 	if err := os.MkdirAll(dir, 0o755); err != nil {
 		return nil, "diff"
 	}
